@@ -218,6 +218,10 @@ pub fn uadv(thorough: bool) -> Vec<(String, Pats)> {
     // duplicates
     v.push(("dups3".into(), vec![b("ab"), b("ab"), b("ab")]));
     v.push(("dups-mixed".into(), vec![b("ab"), b("b"), b("ab"), b("b"), b("")]));
+    // a list that consists only of copies of one pattern of >= 8 bytes (a
+    // single-substring prefilter would be possible; every id must be reported)
+    v.push(("dups-long-2".into(), vec![b("haystack"), b("haystack")]));
+    v.push(("dups-long-3".into(), vec![b("needle-xy"), b("needle-xy"), b("needle-xy")]));
     // empty pattern first / middle / last with 2- and 3-byte companions
     v.push(("empty-first".into(), vec![b(""), b("ab"), b("abc")]));
     v.push(("empty-middle".into(), vec![b("ab"), b(""), b("abc")]));
